@@ -103,13 +103,51 @@ def norm_opts(expr: ast.expr) -> str:
     return ast.unparse(e)
 
 
-def enclosing_try_types(fn: ast.AST) -> Dict[int, List[str]]:
+def contextmanager_guard(fn: ast.AST) -> List[str]:
+    """Exception types that a ``@contextmanager`` generator absorbs for the block it manages: the handlers of the
+    ``try`` statements around its single ``yield`` that can end without raising."""
+    if not any(ast.unparse(d).split(".")[-1] == "contextmanager" for d in getattr(fn, "decorator_list", [])):
+        return []
+    pm = parent_map(fn)
+    ys = [x for x in walk_no_nested(fn) if isinstance(x, ast.Yield)]
+    if len(ys) != 1:
+        return []
+    types: List[str] = []
+    cur: ast.AST = ys[0]
+    while id(cur) in pm:
+        par = pm[id(cur)]
+        if isinstance(par, ast.Try) and cur in par.body:
+            for h in par.handlers:
+                ends_in_raise = bool(h.body) and isinstance(h.body[-1], ast.Raise)
+                if ends_in_raise:
+                    continue
+                if h.type is None:
+                    types.append("BaseException")
+                elif isinstance(h.type, ast.Tuple):
+                    types.extend(ast.unparse(t) for t in h.type.elts)
+                else:
+                    types.append(ast.unparse(h.type))
+        cur = par
+    return types
+
+
+def enclosing_try_types(fn: ast.AST, with_guard=None) -> Dict[int, List[str]]:
     """id(node) -> exception type texts of the ``try`` bodies lexically
-    enclosing it (only the *body* of a try is guarded)."""
+    enclosing it (only the *body* of a try is guarded).  ``with_guard(call)`` may name the exception types that a
+    ``with <call>:`` block absorbs (a generator-based context manager of the repository)."""
     out: Dict[int, List[str]] = {}
 
     def visit(n, guards):
         out[id(n)] = guards
+        if isinstance(n, ast.With) and with_guard is not None:
+            extra: List[str] = []
+            for it in n.items:
+                visit(it, guards)
+                if isinstance(it.context_expr, ast.Call):
+                    extra += with_guard(it.context_expr) or []
+            for s in n.body:
+                visit(s, guards + extra)
+            return
         if isinstance(n, ast.Try):
             types = []
             for h in n.handlers:
